@@ -1918,7 +1918,10 @@ def gen_edge_cases():
                         a = None
                 lim_frame = b if mode == "lazy" else a
                 cfg = edge_cfg(ik, stretch, [unj(v) for v in lim_frame])
-                cases.append({"stream": "edge", "mode": mode, "ik": ik, "special": sp, "dtype": dt, "cfg": cfg, "A": a, "B": b})
+                case = {"stream": "edge", "mode": mode, "ik": ik, "special": sp, "dtype": dt, "cfg": cfg, "A": a, "B": b}
+                if mode == "frozen-inplace" and (i // 4) % 2:
+                    case["no_first_call"] = True      # the frame is overwritten BEFORE the object is used for the first time
+                cases.append(case)
                 i += 1
     return cases
 
@@ -1955,8 +1958,9 @@ def one_edge(ctx, drv, case):
         if mode == "frozen-inplace":
             work = arrA.copy()
             norm = make_norm(cfg, work)
-            out_first = norm(work)
-            out_first_snapshot = _masked_list(np, out_first)
+            if not case.get("no_first_call"):
+                out_first = norm(work)
+                out_first_snapshot = _masked_list(np, out_first)
             for pos, v in zip(EDGE_POS, EDGE_SPECIALS[case["special"]]):
                 work[pos] = unj(v)                        # written IN PLACE into the frame the limits were frozen from
             out = norm(work)
@@ -2034,6 +2038,16 @@ def one_edge(ctx, drv, case):
                 ctx.pred_fail("limits-beyond:" + sig, "a pixel at/beyond the limit the configuration declares (from the frame the limits were taken from) is not at 0 / 1",
                               case, observed={"declared_vmin": dl[0], "declared_vmax": dl[1], "x": x, "out": y}, required=want)
                 return
+    if frozen and dl is not None and not f32:
+        # state "vmin/vmax fixed by _set_limits": the frozen limits are the ones the configuration declares for the frame given
+        # at construction — as it was THEN (not for a later frame, not for that frame after it was overwritten in place)
+        ctx.dist["edge:limits-frozen-checked"] += 1
+        rl = [None if v is None else float(v) for v in (norm.vmin, norm.vmax)]
+        tolv = 1e-12 * max(abs(dl[0]), abs(dl[1]), 1.0)
+        if rl[0] is None or rl[1] is None or abs(rl[0] - dl[0]) > tolv or abs(rl[1] - dl[1]) > tolv:
+            ctx.pred_fail("limits-frozen:" + sig, "the frozen limits (norm.vmin, norm.vmax) are not the ones the configuration declares for the frame the "
+                          "object was constructed with", case, observed={"vmin": rl[0], "vmax": rl[1]}, required=[dl[0], dl[1]])
+            return
     if frozen and norm.vmin is not None and norm.vmax is not None and float(norm.vmin) < float(norm.vmax):
         ctx.dist["edge:limits-clause-checked"] += 1
         try:
@@ -2098,8 +2112,8 @@ def edge_big_array(which):
         pat = np.array([0.0, 10.0, 1.0, 10.0, 2.0, 10.0, 3.0, 90.0])
         arr = np.tile(pat, (2048, 256))
         arr[5, ::64] = np.nan
-        arr[1001, 1003] = np.inf
-        arr[7, 2] = -np.inf
+        arr[1001, 1003] = np.inf           # adjacent, and an even number of NaNs: the phase of the pattern in the sequence of
+        arr[1001, 1004] = -np.inf          # finite pixels is the same before and after them
         arr[1500, 1] = -40.0              # single finite pixels beyond the quantile limits
         arr[2047, 2047] = 400.0
         cfg = dict(DEFAULT_CFG)
@@ -2157,6 +2171,26 @@ def one_edge_big(ctx, drv, case):
     dl = declared_limits(cfg, arr)
     lo, hi = dl
     ctx.dist["edge:big-limits-checked"] += 1
+    # the limits the object reports / uses are the ones the interval type declares for THIS image (all of its pixels)
+    try:
+        rlo, rhi = (norm.vmin, norm.vmax) if mode == "frozen" else norm.interval.get_limits(arr.astype(np.float64))
+        rlo, rhi = float(rlo), float(rhi)
+    except Exception as e:  # noqa
+        rlo = rhi = None
+    tolv = 1e-9 * max(abs(lo), abs(hi), 1.0)
+    if rlo is None or abs(rlo - lo) > tolv or abs(rhi - hi) > tolv:
+        ctx.pred_fail("limits-auto-value:" + sig, "the limits are not the ones the interval type declares for this image (quantiles / min-max / centred range of ALL its finite pixels)",
+                      case, observed={"vmin": rlo, "vmax": rhi}, required=[lo, hi])
+        return
+    if selected_stretch(cfg)[0] == "LinearStretch" and lo < hi:
+        # correspondence with the closed form the model is proved equal to (intervalFin_eq): clip01((x - lo) / (hi - lo))
+        want = np.clip((xf - lo) / (hi - lo), 0.0, 1.0)
+        dev = np.abs(yf - want)
+        ctx.stat_max("max_abs_dev_out_big_linear", float(dev.max()))
+        if dev.max() > 1e-9:
+            j = int(np.argmax(dev))
+            ctx.disagree("edge-big", case, {"x": float(xf[j]), "out": float(want[j])}, {"x": float(xf[j]), "out": float(yf[j])},
+                         note="pixel of a > 2**20-pixel image vs clip01((x - vmin) / (vmax - vmin)) with the declared limits")
     below, above = xf <= lo, xf >= hi
     if not (np.all(yf[below] == 0.0) and np.all(yf[above] == 1.0)):
         bad = np.flatnonzero((below & (yf != 0.0)) | (above & (yf != 1.0)))
